@@ -184,6 +184,29 @@ def initializer_skips_generated():
     return guarded("initializer", run)
 
 
+def initializer_kinds():
+    """a scalar and an array of one name are two variables for the initialiser too: DIMming the array does not initialise the scalar, and
+    a scalar that is DIMmed (initialised at its DIM) does not excuse the array"""
+    def run():
+        from coco.b09.compiler import convert
+        res = []
+        for nm, zero in (("A", "0.0"), ("AB", "0.0"), ("Z9", "0.0"), ("A$", '""'), ("AB$", '""')):
+            for name, src, want_scalar in (("array DIMmed, scalar used", "10 DIM %s(5)\n20 PRINT %s;%s(1)\n" % (nm, nm, nm), True),
+                                            ("array DIMmed with another, scalar used", "10 DIM Q(2),%s(5)\n20 PRINT %s;%s(1)\n" % (nm, nm, nm), True),
+                                            ("scalar DIMmed, array used", "10 DIM %s\n20 PRINT %s;%s(1)\n" % (nm, nm, nm), True)):
+                try:
+                    text = convert(src, add_standard_prefix=False, initialize_vars=True)
+                    scalar = bool(re.search(r"(^|\n|\\ )%s := (0\.0|0|\"\")(\n| |$)" % re.escape(nm), text))
+                    array = bool(re.search(r"arr_%s\(tmp_\d+\) := " % re.escape(nm), text))
+                    got = dict(scalar_initialised=scalar, array_initialised=array)
+                except Exception as e:  # noqa
+                    got = "%s: %s" % (type(e).__name__, str(e)[:80])
+                want = dict(scalar_initialised=want_scalar, array_initialised=True)
+                res.append(ob("initializer/kinds/%s/%s" % (name, nm), got == want, want, got, src))
+        return res
+    return guarded("initializer/kinds", run)
+
+
 def reserved_values():
     """A name the tool reads as a value of its own (the error number ERNO, the keyboard INKEY$, TIMER-like nullary
     tokens: every rule of the real grammar that is one upper-case literal and sits in an expression alternative) denotes
@@ -293,4 +316,4 @@ def config_names_c09():
 
 
 def obligations():
-    return truncation() + kinds_disjoint() + generated_identifiers() + variable_positions() + positions_through_rules() + reserved_values() + initializer_skips_generated() + config_names_c09() + kinds_in_declarations() + next_names()
+    return truncation() + kinds_disjoint() + generated_identifiers() + variable_positions() + positions_through_rules() + reserved_values() + initializer_skips_generated() + initializer_kinds() + config_names_c09() + kinds_in_declarations() + next_names()
